@@ -13,7 +13,7 @@ VERIF_ALT_OUT=$(mktemp -d /tmp/verif-alt-XXXXXX); export VERIF_ALT_OUT  # privat
 trap 'git -C /repo worktree remove --force $W >/dev/null 2>&1; rm -rf "$VERIF_ALT_OUT"' EXIT
 demo=${DEMOFILE:-}; [ -n "$demo" ] || demo=$(ls $out/demo_test.go $out/demo*_test.go $out/demo/main.go 2>/dev/null | head -1)
 res=/tmp/seed-$pid-$tag-eval.txt; : > $res
-cp "$demo" $W/$demopath
+mkdir -p $(dirname $W/$demopath); cp "$demo" $W/$demopath
 ( cd $W && go test ${DEMOFLAGS:-} -vet=off -count=1 -run "$demorun" ./$(dirname $demopath)/ ) > /tmp/seed-$pid-$tag-demo-clean.txt 2>&1; echo "demo on clean tree: exit $?" | tee -a $res
 rm $W/$demopath
 if ! ( cd $W && git apply $out/patch.diff 2>/dev/null ); then
@@ -29,7 +29,7 @@ if ! ( cd $W && git apply $out/patch.diff 2>/dev/null ); then
 fi
 ( cd $W && go build ./... ) && echo "builds: yes" | tee -a $res
 ( cd $W && go test -vet=off -count=1 ./... 2>&1 | grep -v "no test files" | grep -v "^ok" ) > /tmp/seed-$pid-$tag-suite.txt; if [ -s /tmp/seed-$pid-$tag-suite.txt ]; then echo "SUITE OUTPUT:"; cat /tmp/seed-$pid-$tag-suite.txt; ( cd $W && go test -vet=off -count=1 ./... 2>&1 | grep -v "no test files" | grep -v "^ok" ) | tee -a $res; else echo "pinned suite with the change: passes" | tee -a $res; fi
-cp "$demo" $W/$demopath
+mkdir -p $(dirname $W/$demopath); cp "$demo" $W/$demopath
 ( cd $W && go test ${DEMOFLAGS:-} -vet=off -count=1 -run "$demorun" ./$(dirname $demopath)/ ) > /tmp/seed-$pid-$tag-demo-mut.txt 2>&1; echo "demo with the change: exit $?" | tee -a $res
 rm $W/$demopath
 for c in $pid "$@"; do
